@@ -81,6 +81,21 @@ def _start_state_path(ctx, rep):
                 n += 1
                 tgt = ast.unparse(c.args[1])
                 m = re.fullmatch(r"\[(\w+) for \1 in ([\w.]+) if \1 is not self\.starting_state\]", tgt)
+                m2 = re.fullmatch(r"\[(\w+) for \1 in ([\w.]+) if \1 not in (\w+)\]", tgt)
+                if m is None and m2 is not None:
+                    # generalised form (F-113): the states entered without taking a transition = the starting state and every state an action jumps to
+                    excl = m2.group(3)
+                    defn = next((ast.unparse(a.value) for a in ast.walk(f) if isinstance(a, ast.Assign) and ast.unparse(a.targets[0]) == excl), "")
+                    jt = next((ast.unparse(a.value) for a in ast.walk(f) if isinstance(a, ast.Assign) and ast.unparse(a.targets[0]) == "jumped_to"), "")
+                    ok2 = defn == f"[x for x in {m2.group(2)} if x is self.starting_state or x in jumped_to]" and \
+                        jt == "set((target for transition in self.all_transitions() for action in transition.actions for sub in action.all_subactions() for target in sub.get_target_override_targets()))" and \
+                        step is not None and any(isinstance(i, ast.If) and ast.unparse(i.test) == excl and
+                                                 any(isinstance(x, ast.Call) and ast.unparse(x.func) == "self.append_action_step" and [ast.unparse(y) for y in x.args] == [ast.unparse(c.args[0]), excl]
+                                                     for x in ast.walk(i)) for i in ast.walk(f))
+                    rep.check(ok2, "C01.s", q, f"chain_actions_into({ast.unparse(c.args[0])}, ..): the starting state and every state an action jumps to are excluded and given a step",
+                              f"`{ast.unparse(c)[:110]}`: the set of states entered without taking a transition (the machine's starting state; the handler an overflowing append leaves for) is not "
+                              "excluded / not given the action step: the first actions of `catch (outofspace) { n = 7; caught(); /b*/; }` are skipped when the append overflows", line=c.lineno)
+                    continue
                 routed = m is not None and step is not None and any(
                     isinstance(i, ast.If) and ast.unparse(i.test).endswith(f"self.starting_state in {m.group(2)}") and
                     any(isinstance(x, ast.Call) and ast.unparse(x.func) == "self.append_action_step" and len(x.args) == 2 and ast.unparse(x.args[1]) == "[self.starting_state]" and
